@@ -72,6 +72,20 @@ def c15_gen(r, tier):
                 p = G.path_into(r, d, fan_p=0.4)
                 yield {"schema": {"rules": [{"path": p, "cond": r.choice(conds), "cast": cast}]}, "doc": enc(d),
                        "tag": "directed"}
+    # several cast rules over overlapping nodes, a later one finding nothing it can cast: it is still judged on the shared copy
+    ib = G.leaf("ValueDataType", "in_", [{"$type": "int"}, {"$type": "bool"}])
+    for d, rules in (
+            ({"opts": {"retries": "3", "debug": "true"}},
+             [{"path": {"parts": [{"$prim": "opts"}, {"$prim": "retries"}]}, "cond": conds[3], "cast": {"str": "int"}},
+              {"path": {"parts": [{"$prim": "opts"}, {"$p": "map"}]}, "cond": ib, "cast": {"str": "bool"}}]),
+            ({7: ["true", "FALSE"]},
+             [{"path": {"parts": [{"$prim": 7}, {"$p": "list"}]}, "cond": conds[1], "cast": {"str": "bool"}},
+              {"path": {"parts": [{"$prim": 7}, {"$p": "list"}]}, "cond": ib, "cast": {"str": "int"}}]),
+            ({"a": ["1", "x"]},
+             [{"path": {"parts": [{"$prim": "a"}, {"$prim": 0}]}, "cond": conds[3], "cast": {"str": "int"}},
+              {"path": {"parts": [{"$prim": "a"}, {"$prim": 0}]}, "cond": G.leaf("ValueDataType", "equal_to", {"$type": "int"}), "cast": {"str": "bool"}}])):
+        yield {"schema": {"rules": copy.deepcopy(rules)}, "doc": enc(d), "tag": "overlapping-casts"}
+        yield {"schema": {"rules": copy.deepcopy(rules[::-1])}, "doc": enc(d), "tag": "overlapping-casts"}
     for _ in range(n):
         d = r.choice(CAST_DOCS) if r.random() < 0.5 else G.gen_doc(r, 3)
         rules = []
